@@ -210,6 +210,25 @@ def eval_lab(ctx, c):
             got2 = s.loc[dates[a]:dates[b]]
             if got2.values.tolist() != list(range(a, b + 1)):
                 bad(f'date slice selected {got2.values.tolist()}, expected {list(range(a, b + 1))}')
+            # start and stop at independent resolutions (year / month / day / open): every label from the first
+            # instant of the start period to the last instant of the stop period
+            def form(d, res):
+                return None if res == 3 else str(d)[: (4, 7, 10)[res]]
+            ra, rb = (r // 3) % 4, (r // 13) % 4
+            ka2, kb2 = form(dates[a], ra), form(dates[b], rb)
+            lo = '0000' if ka2 is None else ka2
+            exp2 = [i for i, d in enumerate(dates) if (ka2 is None or str(d)[:len(ka2)] >= ka2) and (kb2 is None or str(d)[:len(kb2)] <= kb2)]
+            for mk in (lambda k: k, lambda k: None if k is None else np.datetime64(k)):
+                sa, sb = mk(ka2), mk(kb2)
+                try:
+                    got3 = s.loc[sa:sb]
+                    g3 = got3.values.tolist()
+                    fg3 = f.loc[sa:sb, 'v'].values.tolist()
+                except Exception as ex:
+                    bad(f'slice {sa!r}:{sb!r} raised {type(ex).__name__}: {ex}')
+                    continue
+                if g3 != exp2 or fg3 != exp2:
+                    bad(f'slice {sa!r}:{sb!r} selected {g3} / frame {fg3}, expected {exp2} (dates {[str(d) for d in dates]})')
         return fails
 
     labels = [untok(t) for t in c['labels']]
